@@ -19,11 +19,18 @@ CL_TMPL = open(os.path.join(vlib.SPECS, FAMILY, "QBFTClusterTrace.cfg.tmpl")).re
 TYPES = {"proposer": 1, "attester": 2, "aggregator": 9}
 
 
-def cfg_of(t):
+FINDING = "C04-component-stops-on-decide"
+
+
+def cfg_of(t, dev="FALSE"):
     r = t[0]
     byz = r.get("byz") or []
-    return ("cl_n%d_i%d_b%s.cfg" % (r["n"], r["inst"], "_".join(map(str, byz))),
-            CL_TMPL % {"N": r["n"], "Inst": r["inst"], "Byz": ", ".join(map(str, byz))})
+    return ("cl%s_n%d_i%d_b%s.cfg" % ("dev" if dev == "TRUE" else "", r["n"], r["inst"], "_".join(map(str, byz))),
+            CL_TMPL % {"N": r["n"], "Inst": r["inst"], "Byz": ", ".join(map(str, byz)), "Dev": dev})
+
+
+def cfg_of_dev(t):
+    return cfg_of(t, "TRUE")
 
 
 # ----------------------------------------------------------------------------------------------------------------------
@@ -75,6 +82,8 @@ def cluster(family, n, inst, dtype, timer, r, *, byz=(), start=None, prop=None, 
     return [{"ev": "Cluster", "family": family, "n": n, "slot": slot_for(r, n, inst, dtype), "dtype": dtype, "timer": timer,
              "byz": list(byz), "start": start, "prop": prop, "lat": lat if lat is not None else lat_matrix(r, n, 10, 200),
              "crashes": list(crashes), "drops": list(drops), "byzplan": byzplan or {}, "timely": timely, "expire": expire,
+             # what the round timers are REQUIRED to be (core/consensus/timer: linear 1 s per round, +500 ms for proposals)
+             "roundms": 1000, "extrams": 500 if dtype == "proposer" else 0,
              "horizon": horizon or 1000 * (2 * (n + 4) + 2)}]
 
 
@@ -186,6 +195,20 @@ def byzantine(r, thorough):
     return out
 
 
+def probe():
+    """Finding C04-component-stops-on-decide, fault-free and inside the C04 assumptions (n=6, increasing timer, start offsets
+    903 ms < one round, latencies <= 304 ms < 1/3 round): the round-1 leader starts first and leaves round 1 at 1000 ms, 200 ms
+    before the PREPAREs/COMMITs of the five late members reach it; those five decide in round 1 and their component cancels
+    the instance, so nobody answers the leader's ROUND-CHANGEs (the core's DECIDED re-send needs a running instance) and
+    COMMITs of a round the member has left are ignored by classify: the leader never decides."""
+    n, inst = 6, 0
+    ldr = 1
+    start = [0 if i == ldr else 903 for i in range(n)]
+    lat = [[0 if i == j else (300 + (i % 5) if j == ldr else 10 + (i + j) % 5) for j in range(n)] for i in range(n)]
+    r = vlib.rng(0, "conscluster/probe")
+    return cluster("probe_stop_on_decide", n, inst, "attester", "inc", r, start=start, prop=list(start), lat=lat, horizon=12000)
+
+
 def schedules(tier, seed):
     thorough = tier == "thorough"
     r = vlib.rng(seed, "conscluster")
@@ -242,7 +265,7 @@ def mutators():
         if not fam(t, "honest"):
             return None
         i = [k for k, e in enumerate(t) if e.get("ev") == "Send"][0]
-        t.insert(i + 1, {"ev": "Reject", "from": t[i]["p"], "err": "x", "now": t[i]["now"]})
+        t.insert(i + 1, {"ev": "Reject", "from": t[i]["p"], "err": "x", "kind": "verdict", "now": t[i]["now"]})
         return t
 
     def too_late(t):
@@ -282,11 +305,16 @@ def mutators():
 
 
 # ----------------------------------------------------------------------------------------------------------------------
-def stage(o, tier, seed, node_traces=True):
+def stage(o, tier, seed, node_traces=True, probe_finding=True):
     """Run the cluster tier as an extra stage of an existing check (Outcome `o` collects coverage and violations)."""
     t0 = time.time()
     sch = schedules(tier, seed)
-    vlib.conformance(o, FAMILY, "QBFTClusterTrace", cfg_of, PKG, sch, tag="cluster", chunk=40, exec_timeout=600, tv_timeout=600)
+    if probe_finding:
+        sch = sch + [probe()]
+    vlib.conformance(o, FAMILY, "QBFTClusterTrace", cfg_of, PKG, sch, tag="cluster", chunk=40, exec_timeout=600, tv_timeout=600,
+                     dev_cfgs=[(FINDING, cfg_of_dev)], max_report=4)
+    if probe_finding and not o.violations and not any(k == FINDING for k, _ in o.known):
+        log("note: the %s probe no longer reproduces (the finding may have been repaired)" % FINDING)
     tr = vlib.split_traces(vlib.read_ndjson(os.path.join(vlib.workdir(o.pid), "trace_cluster.ndjson")))
     if not o.violations:
         vlib.binding_selftest(o, FAMILY, "QBFTClusterTrace", cfg_of, tr, mutators())
@@ -318,6 +346,8 @@ def main(tier="quick", seed=1, pid="CCLUSTER"):
     except vlib.Infra as e:
         log("INFRA: %s" % e)
         return 2
+    for fid, txt in o.known:
+        log("KNOWN-FINDING: property=%s %s: %s" % (pid, fid, txt))
     for path, txt in o.violations:
         log("VIOLATION property=%s replay=%s" % (pid, path))
         log("  " + txt)
